@@ -32,7 +32,9 @@ class FakeTensor:
             return self.data_obj
         if name == "grad":
             return self.grad_obj
-        raise AssertionError(f"save() touched tensor.{name}")
+        # any other attribute (private caches such as _grad / _view_grad / _base) is outside save()'s frame: it is logged and
+        # answered with an opaque value, and the `reads_only_data_and_grad` obligation reports it
+        return Opaque(f"t.{name}")
 
     def __sym_setattr__(self, interp, name, v):
         self.log.append(("write", name))
